@@ -24,7 +24,8 @@ THEOREMS = ["OdxVerif.Codec." + t for t in ['C01_roundtrip_struct', 'C01_roundtr
                                             'Comp.ofObjValue_ok', 'Comp.ofObjConst_ok', 'Comp.ofGItem_ok', 'DComp.staticField_ok',
                                             'DComp.dynLenField_ok', 'DComp.eopField_ok', 'DComp.mux_ok', 'Comp.withDefault_ok',
                                             'Comp.ofObjDefault_ok', 'Comp.ofObjPhysConst_ok', 'Comps.encode_eq', 'Comps.decode_eq',
-                                            'Comps.decPre_intro', 'exNested_described']]
+                                            'Comps.decPre_intro', 'exNested_described', 'C01_roundtrip_nested_pre', 'Comp.reserved_ok',
+                                            'Comp.nrcConst_ok', 'Tree.toComp_ok', 'exNrc_ok', 'exNrc_pre']]
 RULE = ("well-formed descriptions (envelope wf of DESIGN §6/C01, by construction in harness/odxgen/gen.py) x canonical values "
         "(odxgen/values.py): corpus of past failures; every BYTE-SIZE structure size x offset; every (integer type, encoding, byte order, "
         "bit length, bit position) standard-length DOP with boundary values; floats/strings/byte fields x encodings x byte orders; random "
